@@ -7,6 +7,7 @@ CONFIG = {
     "theorems": [
         "V.C08.checks_imply_no_escalation", "V.C08.accepted_notifications", "V.C08.accepted_pl_no_escalation",
         "V.C08.v12_no_creator_in_users", "V.C08.integer_only_levels", "V.C08.pl_columns_eq_spec",
+        "V.C08.ceiling_step", "V.C08.history_ceiling", "V.C08.accepted_history", "V.C08.accepted_pl_notifications",
     ],
     "rule": "random room states (create / power_levels / join_rules / members, 16 versions) x event under test; for C08 the "
             "power-level events are old-content mutations at sender level -1/0/+1 incl. removals, string/float/junk levels; "
